@@ -2145,9 +2145,28 @@ class Evaluator:
             kws2 = sorted(kws, key=lambda kv: kv[0])
             return c.mk(("call", f"{typ.split('.')[-1]}.{m}", len(pos) + 1, tuple(k for k, _ in kws2)),
                         [recv] + pos + [v for _, v in kws2], ret)
-        pos, kws = self._canon_args(self.EXT_SIGS.get(f".{m}"), pos, kws, star)
+        names = self.EXT_SIGS.get(f".{m}")
+        if names is None and self.exact and f".{m}" not in self.EXT_SIGS:
+            names = self._unique_method_params(m)
+        pos, kws = self._canon_args(names, pos, kws, star)
         kws2 = sorted(kws, key=lambda kv: kv[0])
         return c.mk(("call", f".{m}", len(pos) + 1, tuple(k for k, _ in kws2)), [recv] + pos + [v for _, v in kws2])
+
+    def _unique_method_params(self, m):
+        """parameter names of the package's only method called `m` (plain signature), for a call on a receiver whose class is
+        not known: `mesh.region2slices(r)` and `mesh.region2slices(region=r)` are one call.  None when the name is not unique
+        or the signature has * / ** / positional-only parameters."""
+        cache = self.repo.__dict__.setdefault("_unique_method_params", {})
+        if m not in cache:
+            found = [f for q, f in self.repo.funcs.items() if f.parent is None and f.cls is not None and f.node.name == m
+                     and getattr(f, "kind", "method") == "method"]
+            names = None
+            if len(found) == 1 and not m.startswith("__"):
+                a = found[0].node.args
+                if not (a.vararg or a.kwarg or a.posonlyargs):
+                    names = [x.arg for x in a.args][1:]
+            cache[m] = names
+        return cache[m]
 
 
 def _walk_own(fn_node):
